@@ -137,3 +137,18 @@ func init() {
 		},
 	}
 }
+
+func init() {
+	properties["C11"] = Property{
+		Level: "exploration",
+		Rule: "cases = generated functions (typed statement grammar: assignments, if/else, 3-clause/condition/range loops over slice, string, int, map and channel, switch with fallthrough, labelled break/continue, goto, select, defer and recover, closures mutating captured variables, conditional panics, calls to earlier functions, methods with value and pointer receivers, generic functions) each marked //garble:controlflow with drawn parameters (flatten_passes 0-3, junk_jumps 0..max, block_splits 0..max, trash_blocks 0-32, flatten_hardening none/xor/delegate_table/both) and called with 3-6 drawn argument tuples; oracle = results, trace and panic outcome per call equal the regular build's; rejected programs are re-built one function at a time. evaluations = functions. Non-trivial = the obfuscated build succeeded and the body contains a branch or loop; distinct = (set of statement kinds and parameter classes, function kind).",
+		Assumptions: append([]string{
+			"termination by construction (bounded loops, calls only to earlier functions); a garbled binary still running after 20 s, confirmed with 40 s, counts as 'junk or trash code executed'",
+			"map ranges are used order-insensitively",
+		}, commonAssumptions...),
+		ReplayUnit: "TestC11Replay",
+		Units: []Unit{
+			{Name: "TestC11", Kind: "e2e", Checks: [2]int{4, 50}, Workers: [2]int{4, 8}},
+		},
+	}
+}
